@@ -295,10 +295,16 @@ def checkLabel (lm : LinModel (Ext Rat)) (o : MilpOpts) (r r0 : ImplRes (Ext Rat
   match r with
   | .hang => viol "hang" []
   | .panic => viol "panic" []
+  -- a wrong verdict that the SAME entry point gives without any option is not caused by a limit or a tolerance: it is
+  -- C05's subject (and reported there, e.g. microlp's free-variable defects); C15 only judges what the options changed
   | .err "Infeasible" =>
-    if sol.verdict matches .infeasible then okS [.atom "infeasible"] else viol (cause "infeasible-reported-for-feasible-model") []
+    if sol.verdict matches .infeasible then okS [.atom "infeasible"]
+    else if (match r0 with | .err "Infeasible" => true | _ => false) then okS [.atom "same-wrong-verdict-without-options", .atom "infeasible"]
+    else viol (cause "infeasible-reported-for-feasible-model") []
   | .err "Unbounded" =>
-    if sol.verdict matches .unbounded then okS [.atom "unbounded"] else viol (cause "unbounded-reported-for-bounded-model") []
+    if sol.verdict matches .unbounded then okS [.atom "unbounded"]
+    else if (match r0 with | .err "Unbounded" => true | _ => false) then okS [.atom "same-wrong-verdict-without-options", .atom "unbounded"]
+    else viol (cause "unbounded-reported-for-bounded-model") []
   | .err v => okS [.atom "error", .atom v]       -- stopping with an error is what the property allows
   | .ok s _ =>
     match pointOf lm s with
